@@ -137,6 +137,16 @@ def run(repo: Repo, chk: Check, thorough: bool = False) -> None:
     gp = repo.func(f'{OPT}.get_parser')
     aps = [c for c in calls_in(gp) if call_name(c) == 'ArgumentParser']
     ok = len(aps) == 1 and any(k.arg == 'config_file_parser_class' and norm(k.value) == 'PydoctorConfigParser' for k in aps[0].keywords)
+    enc_fn = next((k.value for k in aps[0].keywords if k.arg == 'config_file_open_func'), None) if aps else None
+    enc_ok = False
+    if isinstance(enc_fn, ast.Name) and f'{OPT}.{enc_fn.id}' in repo.funcs:
+        enc_ok = any(isinstance(c, ast.Call) and call_name(c) == 'open' and any(k.arg == 'encoding' for k in c.keywords) for c in calls_in(repo.funcs[f'{OPT}.{enc_fn.id}']))
+    elif isinstance(enc_fn, ast.Lambda):
+        enc_ok = any(isinstance(c, ast.Call) and call_name(c) == 'open' and any(k.arg == 'encoding' for k in c.keywords) for c in ast.walk(enc_fn))
+    chk.ob('R20.1', f'{OPT}.get_parser :: config files are decoded as UTF-8, not with the encoding of the locale', enc_ok,
+           'config_file_open_func opens with an explicit encoding' if enc_ok else
+           'configargparse opens the files with a bare open(): `project-name = "Café"` aborts under LC_ALL=C (or is read as `CafÃ©` under a legacy 8-bit locale), while '
+           'the same value on the command line is fine - TOML is UTF-8 by definition', gp.loc)
     chk.ob('R20.1', f'{OPT}.get_parser :: one ArgumentParser with the composite config parser', ok,
            'config_file_parser_class=PydoctorConfigParser' if ok else 'the argument parser is not built with the pydoctor config parser', gp.loc)
     for q, nm, c in uses:
@@ -265,7 +275,9 @@ def run(repo: Repo, chk: Check, thorough: bool = False) -> None:
     ok = any(isinstance(n, ast.Assign) and isinstance(n.value, ast.Call) and call_name(n.value) == 'str' and 'result' in norm(n.targets[0]) for n in tp.walk())
     chk.ob('R20.4', f'{tp.qn} :: scalars are converted to str', ok, 'result[key] = str(value)' if ok else 'TOML scalars are not stringified like INI values', tp.loc)
     cpp = repo.func(f'{CP}.CompositeConfigParser.parse')
-    ok = any(isinstance(n, ast.For) and 'self.parsers' in norm(n.iter) for n in cpp.walk()) and \
+    # the loop runs over self.parsers, directly or through a method of the class that returns (a re-ordering of) them
+    sel = {h.name for h in repo.funcs.values() if h.cls is cpp.cls and any(isinstance(x, ast.Attribute) and x.attr == 'parsers' for x in h.walk())}
+    ok = any(isinstance(n, ast.For) and ('self.parsers' in norm(n.iter) or (isinstance(n.iter, ast.Call) and call_name(n.iter) in sel)) for n in cpp.walk()) and \
         any(call_name(c) == 'seek' for c in calls_in(cpp)) and any(isinstance(n, ast.Raise) and 'ConfigFileParserException' in norm(n) for n in cpp.walk())
     chk.ob('R20.4', f'{cpp.qn} :: tries each format on the rewound stream', ok, 'for p in parsers: try p.parse(stream) except: stream.seek(0)' if ok else
            'the composite parser no longer rewinds the stream / reports all errors', cpp.loc)
@@ -378,6 +390,16 @@ def run(repo: Repo, chk: Check, thorough: bool = False) -> None:
     chk.ob('R20.6', f'{OPT}.PydoctorConfigParser :: TOML is tried before INI', ok,
            ' then '.join(order) if ok else f'order {order}: a pyproject.toml that also reads as INI is interpreted with INI rules (comments and '
            'escapes become part of the values)', 'pydoctor/options.py')
+    # ... but a file that IS an INI file (pydoctor.ini, setup.cfg) must be read with INI rules first: the text of a simple INI file is often valid TOML with
+    # another meaning (`project-version = 1.10` -> the float 1.1 -> '1.1'; `0x10` -> 16; `'a\\tb'` keeps its backslash) - the format is decided by what the
+    # file is, not by which parser happens to accept its text
+    cpar = repo.func(f'{CP}.CompositeConfigParser.parse')
+    by_name = any(isinstance(x, ast.Constant) and isinstance(x.value, (str, tuple)) and ('.ini' in x.value or '.cfg' in x.value) for g in [cpar] +
+                  [h for h in repo.funcs.values() if h.cls is cpar.cls and any(call_name(c) == h.name for c in calls_in(cpar))] for x in g.walk())
+    chk.ob('R20.6', f'{CP}.CompositeConfigParser.parse :: *.ini and *.cfg files are read with the INI rules first', by_name,
+           'the order of the parsers depends on the name of the file' if by_name else
+           'every file is offered to the TOML parser first: `project-version = 1.10` in pydoctor.ini (or a `[pydoctor]` section of setup.cfg whose lines all happen to be '
+           'valid TOML) is read as the float 1.1, the command line and `[tool:pydoctor]` give \'1.10\'', cpar.loc)
     secs = om.assigns.get('CONFIG_SECTIONS')
     ok = isinstance(secs, ast.List) and [const_str(e) for e in secs.elts] == ['tool.pydoctor', 'tool:pydoctor', 'pydoctor'] and \
         isinstance(pcp, ast.Call) and all('CONFIG_SECTIONS' in norm(e) for e in pcp.args[0].elts)  # type: ignore[attr-defined]
